@@ -239,7 +239,7 @@ func concreteArgs(p int) *args.Args {
 	_ = a.Add("f", float64(p)+0.5)
 	_ = a.Add("big", int64(1)<<53-1)
 	_ = a.Add("e", []int{})
-	_ = a.Add("r", "aa"+strconv.Itoa(p)) // a repeated letter: the literal after a star starts, fails, and starts again inside what was read
+	_ = a.Add("r", "aaa"+strconv.Itoa(p)) // a repeated letter: the literal after a star starts, fails, and starts again inside what was read
 	_ = a.Add("k", basicnode.NewLink(linkFor("c1")))
 	return a
 }
@@ -250,9 +250,9 @@ func init() {
 		return `{"/": "` + linkFor(id).(cidlink.Link).Cid.String() + `"}`
 	}
 	policyCatalogue["[0 1 2]"] = append(policyCatalogue["[0 1 2]"], `["==", ".k", `+lk("c1")+`]`, `["not", ["==", ".k", `+lk("c1v")+`]]`, `["like", ".r", "*a*"]`, `["like", ".r", "a*a*"]`)
-	policyCatalogue["[]"] = append(policyCatalogue["[]"], `["==", ".k", `+lk("c1v")+`]`, `["==", ".k", `+lk("c1z")+`]`, `["==", ".k", `+lk("c2")+`]`, `["like", ".r", "*aaa*"]`)
-	policyCatalogue["[0]"] = append(policyCatalogue["[0]"], `["like", ".r", "*a0"]`)
-	policyCatalogue["[1]"] = append(policyCatalogue["[1]"], `["like", ".r", "a*a1"]`, `["like", ".r", "*a1"]`)
+	policyCatalogue["[]"] = append(policyCatalogue["[]"], `["==", ".k", `+lk("c1v")+`]`, `["==", ".k", `+lk("c1z")+`]`, `["==", ".k", `+lk("c2")+`]`, `["like", ".r", "*aaaa*"]`)
+	policyCatalogue["[0]"] = append(policyCatalogue["[0]"], `["like", ".r", "*aa0"]`, `["like", ".r", "*a0"]`)
+	policyCatalogue["[1]"] = append(policyCatalogue["[1]"], `["like", ".r", "a*aa1"]`, `["like", ".r", "*aa1"]`)
 	policyCatalogue["[2]"] = append(policyCatalogue["[2]"], `["like", ".r", "*aa2"]`)
 }
 
